@@ -1,7 +1,9 @@
 #!/bin/sh
-# runs every registered check in the given tier sequentially; prints the summary lines
+# runs every registered check in the given tier sequentially; prints the summary lines and the wall time
 TIER="${1:-quick}"
+shift
+PROPS="${@:-C16 C04 C06 C07 C20 C03 C14 C15 C13 C10 C02 C11 C09 C08 C17 C19 C18 C12 C05 C01}"
 cd "$(dirname "$0")/.."
-for p in C01 C02 C03 C04 C05 C06 C07 C08 C09 C10 C11 C12 C13 C14 C15 C16 C17 C18 C19 C20; do
-  /usr/bin/time -f "%es" bin/check $p $TIER 2>&1 | grep -v "^  harness" | cut -c1-300 | tail -${LINES_PER:-4}
+for p in $PROPS; do
+  /usr/bin/time -f "$p %es" timeout ${CHECK_TIMEOUT:-3600} bin/check $p $TIER 2>&1 | grep -v "^  harness" | cut -c1-300 | tail -${LINES_PER:-4}
 done
